@@ -1799,8 +1799,15 @@ pub fn registry(rng: &mut Rng) -> Program {
     let mut g = G::new(rng);
     let nclients = g.rng.range(1, 4) as usize;
     let ntypes = g.rng.range(1, 2) as u8;
-    let d1 = svc_default(1, g.rng);
+    let mut d1 = svc_default(1, g.rng);
     let d2 = svc_default(2, g.rng);
+    // release builds only (C08's thorough tier, engine l1r): the first instance a lookup spawns on demand fails in
+    // started().  In debug builds the unchanged library panics inside that lookup (`debug_assert!(ping)`), so the
+    // debug engines keep first start-ups of on-demand instances healthy; in a release build the lookup hands out the
+    // instance, which then dies and stays registered as a terminated entry until somebody replaces it.
+    if !cfg!(debug_assertions) && g.rng.chance(1, 5) {
+        d1.started_err_at = vec![0];
+    }
     g.prog.defaults = vec![d1, d2];
     for k in 1..=2u8 {
         let mut fresh = ActorDecl::plain(50 + k as u32);
